@@ -438,9 +438,19 @@ def lint_annotation(text):
     return "executable text in annotation: " + " ".join(rest[:12])
 
 
-def lint_overlay(path):
+def lint_overlay(path, helpers=None):
+    """annotations must not carry executable text; verbatim blocks may define executable functions only if they are
+    named in the unit's `helpers` allowlist (trusted or separately verified helper functions)"""
     out = []
     for b in parse_overlay(path):
+        if b["kind"] == "verbatim":
+            if helpers is None:
+                continue
+            for l in b["text"].split("\n"):
+                m = re.match(r"^\s*(?:pub(?:\([a-z]+\))?\s+)?(?:const\s+)?fn\s+(\w+)", l)
+                if m and m.group(1) not in helpers:
+                    out.append(("verbatim block at overlay line %d" % b["line"], "executable function %s defined outside /repo" % m.group(1)))
+            continue
         if b["kind"] != "item":
             continue
         for tk in tokenize(b["text"], keep_comments=True):
